@@ -12,6 +12,7 @@ import (
 	"github.com/klev-dev/klevdb/pkg/index"
 	"github.com/klev-dev/klevdb/pkg/message"
 	"github.com/klev-dev/klevdb/pkg/segment"
+	"github.com/klev-dev/klevdb/pkg/vhook"
 )
 
 type reader struct {
@@ -101,6 +102,7 @@ func (r *reader) Consume(offset, maxCount int64) (int64, []message.Message, erro
 		return nextOffset, nil, nil
 	}
 
+	vhook.At("reader.consume.index")
 	position, maxPosition, nextOffset, err := index.Consume(offset)
 	switch {
 	case err != nil:
@@ -114,6 +116,7 @@ func (r *reader) Consume(offset, maxCount int64) (int64, []message.Message, erro
 		return OffsetInvalid, nil, err
 	}
 	defer r.messagesInuse.Add(-1)
+	vhook.At("reader.consume.messages")
 
 	msgs, err := messages.Consume(position, maxPosition, maxCount)
 	if err != nil {
@@ -326,6 +329,7 @@ func (r *reader) getIndexMarked() (indexer, error) {
 
 	r.indexMu.Lock()
 	defer r.indexMu.Unlock()
+	vhook.At("reader.index.loading")
 
 	if ix := r.index; ix != nil {
 		return ix, nil
@@ -351,6 +355,7 @@ func (r *reader) getMessages() (*message.Reader, error) {
 
 	r.messagesMu.Lock()
 	defer r.messagesMu.Unlock()
+	vhook.At("reader.messages.loading")
 
 	if msgs := r.messages; msgs != nil {
 		r.messagesInuse.Add(1)
@@ -387,6 +392,7 @@ func (r *reader) GC(unusedFor time.Duration) error {
 	}
 
 	r.closeIndex()
+	vhook.At("reader.gc.index-closed")
 
 	r.messagesMu.Lock()
 	defer r.messagesMu.Unlock()
